@@ -3,7 +3,9 @@ package gen
 // Results inside the intersection of what gob, CSV and JSON can all represent up to
 // Result.Equal (used by the C08 and C13 harnesses, where records travel through several
 // encodings and cross-encoding equality has to be meaningful):
-//   - texts are valid UTF-8 without "\r" (the CSV reader normalises CR LF; JSON replaces invalid UTF-8)
+//   - texts are valid UTF-8 without the pair "\r\n" (the CSV reader folds CR LF inside a quoted field into LF;
+//     a lone CR, also at the start or end of a text or after a LF, is carried by all three; JSON replaces
+//     invalid UTF-8 by U+FFFD). SpiceText adds what only some of the encodings carry.
 //   - headers are nil or non-empty (gob drops an empty map), keys canonical tokens with ≥1 value,
 //     values without control bytes (HTAB allowed inside) and without leading/trailing blanks
 //   - timestamps 1970…2200 at nanosecond precision, zone offsets in whole minutes
@@ -63,9 +65,10 @@ func (s ResultSpec) ToResult() vegeta.Result {
 // 2200-12-31T23:59:59.999999999Z
 const MaxTsNano = 7289654399999999999
 
-var interRunes = []rune("abcXYZ019 ,\"'\n\t;:{}[]\\/<>&=-_.%+äßλ→日本  �\U0001F600\x00\x01\x7f")
+var interRunes = []rune("\r\f\u2028\u2029\u0085abcXYZ019 ,\"'\n\t;:{}[]\\/<>&=-_.%+äßλ→日本  �\U0001F600\x00\x01\x7f")
 
-// InterText: valid UTF-8 without CR, boundary-biased (quotes, commas, newlines, blanks, escapes).
+// InterText: valid UTF-8 without CR LF, boundary-biased (quotes, commas, newlines, lone carriage returns,
+// NUL, tab, form feed, U+2028, blanks, escapes).
 func InterText(r *kit.Rng, maxLen int) string {
 	switch r.Pick(10) {
 	case 0:
@@ -78,8 +81,8 @@ func InterText(r *kit.Rng, maxLen int) string {
 	for i := 0; i < n; i++ {
 		sb.WriteRune(interRunes[r.Pick(len(interRunes))])
 	}
-	s := sb.String()
-	if !utf8.ValidString(s) || strings.Contains(s, "\r") {
+	s := strings.ReplaceAll(sb.String(), "\r\n", "\r \n")
+	if !utf8.ValidString(s) || strings.Contains(s, "\r\n") {
 		panic("generator: text outside the intersection domain")
 	}
 	return s
@@ -202,4 +205,20 @@ func InterResult(r *kit.Rng, seq uint64, bodySize int) ResultSpec {
 		s.BytesIn, s.BytesOut = uint64(len(s.Body)), uint64(r.Pick(5000))
 	}
 	return s
+}
+
+// SpiceText puts into the texts of a result what only some encodings carry: the pair CR LF (gob and
+// JSON keep it, CSV folds it into LF) and invalid UTF-8 (gob and CSV keep the bytes, JSON writes U+FFFD).
+// The caller says which of the two the path of the result allows.
+func SpiceText(r *kit.Rng, s *ResultSpec, crlf, invalidUTF8 bool) (spiced string) {
+	field := []*string{&s.Error, &s.Attack, &s.Method, &s.URL}[r.Pick(4)]
+	switch {
+	case crlf && (!invalidUTF8 || r.Chance(0.5)):
+		*field += r.PickStr([]string{"\r\n", "a\r\nb", "\r\n\r\n", "x\n\r\n"})
+		return "crlf"
+	case invalidUTF8:
+		*field += r.PickStr([]string{"\xff", "\xc3", "a\xfe\xffb", "\xe2\x80", "\xed\xa0\x80", "\xc0\xaf"})
+		return "invalid-utf8"
+	}
+	return ""
 }
